@@ -31,7 +31,7 @@ RULE = ("Cases: n uniform in 1..6; m = n + extra with extra in {0 (square), 1, 2
         "in [1e-2, 1e3]; bounds kind in {none, around (box strictly contains unconstrained minimiser and x0), excluding "
         "(box excludes the unconstrained minimiser in >= 1 coordinate: active bounds), x0_outside (as excluding/around "
         "but x0 outside the box)}; box widths >= 2.5*default rhobeg (else the solver rejects the input), width ratio "
-        "<= 10; scaling_within_bounds on/off (only with bounds); npt uniform in [n+1, 2n+1]; everything else default. "
+        "<= 10; scaling_within_bounds on/off (only with bounds); npt uniform in [n+1, 2n+1], and for n <= 3 in 12% of the cases 1-3 more than (n+1)(n+2)/2 (random initial directions); everything else default. "
         "Reference f*: numpy lstsq (no bounds) or scipy lsq_linear(bvls), verified by the KKT conditions (fallback: "
         "enumeration of all 3^n active sets). A case is NON-TRIVIAL iff the (projected) starting point is not already "
         "within the tolerance of f* and, for kinds excluding/x0_outside, at least one bound is active at the reference "
@@ -225,6 +225,9 @@ def gen_case(rng):
         # the solver works on A*diag(xu - xl): keep that matrix inside the property's "moderate conditioning" too
         if np.linalg.cond(A * (xu - xl)[None, :]) > 1e3:
             xl[j], xu[j] = old_l, old_u
+    if n <= 3 and rng.random() < 0.12:
+        # more points than a quadratic needs: the initial set is then built from random directions by default
+        npt = (n + 1) * (n + 2) // 2 + int(rng.integers(1, 4))
     return dict(A=A, b=b, x0=x0, xl=xl, xu=xu, npt=npt, scaling=scaling, kind=kind, cond=cond, smax=smax, noise=noise, dist=dist,
                 np_seed=int(rng.integers(0, 2 ** 31 - 1)))
 
@@ -327,7 +330,7 @@ def run_task(task):
         _bump(stats, 'shape=%s' % ('square' if m == n else 'over'))
         _bump(stats, 'kind=%s' % c['kind'])
         _bump(stats, 'scaling=%s' % c['scaling'])
-        _bump(stats, 'npt=%s' % ('n+1' if c['npt'] == n + 1 else ('2n+1' if c['npt'] == 2 * n + 1 else 'between')))
+        _bump(stats, 'npt=%s' % ('n+1' if c['npt'] == n + 1 else ('2n+1' if c['npt'] == 2 * n + 1 else ('random-directions' if c['npt'] > (n + 1) * (n + 2) // 2 else 'between'))))
         _bump(stats, 'cond=%s' % ('1' if c['cond'] == 1.0 else ('<=1e1' if c['cond'] <= 10 else ('<=1e2' if c['cond'] <= 100 else '<=1e3'))))
         _bump(stats, 'smax=%s' % ('<1' if c['smax'] < 1 else '>=1'))
         _bump(stats, 'x0dist=%s' % ('<1' if c['dist'] < 1 else ('<30' if c['dist'] < 30 else '>=30')))
